@@ -458,6 +458,57 @@ def h_boundary(top: int, fill_i: int) -> None:
                         raise Violation(f"accepts-wrong-length :: {fn.__name__}({s2!r}) ({len(s2)} characters) is accepted as {u}")
 
 
+def _ref_encode(n: int, alphabet) -> str:
+    """reference: 22 base-len(alphabet) digits, least significant first"""
+    out = []
+    for _ in range(22):
+        n, d = divmod(n, len(alphabet))
+        out.append(alphabet[d])
+    return "".join(out)
+
+
+def h_history(k1: int, k2: int) -> None:
+    """the result of an encoding / decoding does not depend on the calls made before it in the same process: a number of k1
+    base-57 digits is encoded (and decoded back), then a number of k2 digits (k1, k2 = 0..22 choice variables: every ordered
+    pair of digit counts, longer-then-shorter included; leading digit and filler digits swept natively); every result must be
+    the reference encoding (computed by the harness) and decode to the number, and the first one must still do so afterwards"""
+    from vf.xh import Violation, concrete, realize, reject_unless
+    import ak.short_uuid as mod
+    reject_unless(0 <= k1 <= 22 and 0 <= k2 <= 22)
+    k1, k2 = realize(k1), realize(k2)
+    with concrete():
+        alphabet = list(mod._ALPHABET)
+        base = len(alphabet)
+
+        def numbers(k):
+            if k == 0:
+                return [0]
+            res = []
+            for lead in (1, base - 1):
+                for fill in (0, base - 1):
+                    n = lead * base ** (k - 1) + sum(fill * base ** i for i in range(k - 1))
+                    if n < (1 << 128):
+                        res.append(n)
+            return sorted(set(res))
+
+        for n1 in numbers(k1):
+            for n2 in numbers(k2):
+                hist = []
+                for n in (n1, n2, n1):
+                    s = mod.uuid_to_short_str(_uuid.UUID(int=n))
+                    hist.append((n, s))
+                    exp = _ref_encode(n, alphabet)
+                    if s != exp:
+                        raise Violation(f"history-dependent-encoding :: after encoding {[h[0] for h in hist[:-1]]} in this process, "
+                                        f"uuid_to_short_str(UUID(int={n})) gives {s!r}; the encoding of that uuid is {exp!r}")
+                    try:
+                        back = mod.uuid_from_short_str(s)
+                    except ValueError as e:
+                        raise Violation(f"history-dependent-decoding :: own encoding {s!r} of {n} rejected after {[h[0] for h in hist]}: {e}")
+                    if back.int != n:
+                        raise Violation(f"history-dependent-decoding :: {s!r} decodes to {back.int}, not {n}, after {[h[0] for h in hist]}")
+
+
 def h_non_str(kind: int) -> None:
     from vf.xh import Violation, reject_unless
     import ak.short_uuid as mod
@@ -477,5 +528,6 @@ def jobs(tier: str) -> List[Job]:
         Job(module=__name__, func="h_from_str_canonical", budget_s=240 if t else 40, per_path_timeout=20, label="xh:from_str_canonical"),
         Job(module=__name__, func="h_short_bad_char", budget_s=240 if t else 40, per_path_timeout=20, label="xh:short_bad_char"),
         Job(module=__name__, func="h_non_str", budget_s=30, label="xh:non_str"),
+        Job(module=__name__, func="h_history", budget_s=240 if t else 60, label="xh:call-histories", must_exhaust=True),
         Job(module=__name__, func="h_boundary", budget_s=240 if t else 60, label="xh:boundary-strings", must_exhaust=True),
     ]
